@@ -522,10 +522,11 @@ func runReplay(w *World, r *Replay, tmp string) {
 		os.WriteFile(p, data, 0o644)
 		return p
 	}
+	k := 0
 	for path, data := range w.overlay {
-		if filepath.Dir(path) == dir {
-			ov[path] = write("ov_"+filepath.Base(path), data)
-		}
+		// every overlay file: harnesses may import overlay-only packages (protowire copy)
+		k++
+		ov[path] = write(fmt.Sprintf("ov%d_%s", k, filepath.Base(path)), data)
 	}
 	ov[filepath.Join(dir, "zz_gocv_replay_test.go")] = write("replay_test.go", []byte(r.TestSrc))
 	b, _ := json.Marshal(map[string]any{"Replace": ov})
